@@ -17,6 +17,10 @@ same directory with the same argv, so only the environment's answers differ:
   aslr     setarch -R
   clock    harness/fixclock.so: 2001-01-01 or 2038-01-19 03:14:07
   env      +64 kB of junk variables
+  pwd      the working directory is reached through a symbolic link and every path argument
+           (-oc/-od/-oh, sources, -I/-S) is RELATIVE; PWD is unset (reference), the physical
+           path, the logical (symlink) path, a stale path, another valid directory, spelled
+           with a trailing slash / "/." / "."; plus OLDPWD, HOME, TMPDIR, COLUMNS, USER, LANGUAGE
   locale   LC_ALL / LC_NUMERIC / LANG values
   tz       TZ
   stale    output files of a DIFFERENT run already exist at the output paths
@@ -484,7 +488,7 @@ BACKENDS = {"c": ["-c", "-fnames"], "python": ["-python", "-fnames"], "pynative"
 
 
 # ----------------------------------------------------------------------------- deviations
-DIM_ORDER = ["alloc", "glibc", "aslr", "clock", "env", "locale", "tz", "stale", "rerun", "sde"]
+DIM_ORDER = ["alloc", "glibc", "aslr", "clock", "env", "pwd", "envx", "locale", "tz", "stale", "rerun", "sde"]
 
 
 def dev_key(dev):
@@ -509,6 +513,8 @@ def single_deviations(thorough):
         out.append({"alloc": "%s:recycle:filladdr" % m})
     # independent cross-check with the real glibc allocator
     out += [{"glibc": "perturb85"}, {"glibc": "perturb170"}, {"glibc": "tcache0"}]
+    out += [{"pwd": v} for v in ("physical", "logical", "stale", "other", "physical-slash", "logical-dot", "relative")]
+    out += [{"envx": v} for v in ("OLDPWD", "HOME", "TMPDIR", "COLUMNS", "USER", "LANGUAGE")]
     out += [{"aslr": "off"}, {"clock": T2001}, {"clock": T2038}, {"env": "64k"},
             {"locale": "LC_ALL:de_DE.UTF-8"}, {"locale": "LC_ALL:C.UTF-8"},
             {"locale": "LC_NUMERIC:de_DE.UTF-8"}, {"tz": "Asia/Tokyo"}, {"stale": "present"}]
@@ -518,7 +524,7 @@ def single_deviations(thorough):
 def pair_deviations():
     reps = {
         "alloc": ["asc", "desc", "asc:fill55", "desc:fillaa", "asc:filladdr", "desc:recycle"] + ["perm3.%d.%s" % (ph, "".join(map(str, p))) for ph in range(3) for p in perms(3)],
-        "aslr": ["off"], "clock": [T2001, T2038], "env": ["64k"],
+        "aslr": ["off"], "clock": [T2001, T2038], "env": ["64k"], "pwd": ["logical", "stale"],
         "locale": ["LC_ALL:de_DE.UTF-8", "LC_NUMERIC:de_DE.UTF-8"], "tz": ["Asia/Tokyo"],
         "stale": ["present"],
     }
@@ -589,7 +595,7 @@ class Seams:
         self.aslr_on_varies = strip(on[0]) != strip(on[1])
 
 
-def apply_dev(dev, seams, b, scen_dir):
+def apply_dev(dev, seams, b, scen_dir, scen=None):
     """-> (env, argv prefix).  The environment starts from the scrubbed default."""
     env = build.tool_env(b)
     pre = []
@@ -636,6 +642,16 @@ def apply_dev(dev, seams, b, scen_dir):
             env["LANG"] = val
     if "tz" in dev:
         env["TZ"] = dev["tz"]
+    if "pwd" in dev:
+        # the default environment has no PWD at all; the process cwd is the same in every run
+        env["PWD"] = {"physical": scen.dir, "logical": scen.cwd,
+                      "stale": os.path.join(scen.dir, "no", "such", "dir"),
+                      "other": scen.other, "physical-slash": scen.dir + "/",
+                      "logical-dot": scen.cwd + "/.", "relative": "."}[dev["pwd"]]
+    if "envx" in dev:
+        k = dev["envx"]
+        env[k] = {"OLDPWD": scen.cwd, "HOME": scen.cwd, "TMPDIR": scen.other, "COLUMNS": "7",
+                  "USER": "somebody", "LANGUAGE": "de:fr"}[k]
     if dev.get("sde") == "unset":
         del env["SOURCE_DATE_EPOCH"]
     elif dev.get("sde") == "empty":
@@ -650,7 +666,16 @@ class Scenario:
     def __init__(self, ck, b, seams, name, tool, backend, files, inputs, extra_args=()):
         self.ck, self.b, self.seams = ck, b, seams
         self.name, self.tool, self.backend = name, tool, backend
-        self.dir = ck.scratch("s-" + name)
+        # the working directory is reachable under two names: <scratch>/s-name/real (physical)
+        # and <scratch>/s-name/link -> real; the tools are started through the link
+        outer = ck.scratch("s-" + name)
+        self.dir = os.path.realpath(os.path.join(outer, "real"))
+        os.makedirs(self.dir, exist_ok=True)
+        self.cwd = os.path.join(os.path.realpath(outer), "link")
+        if not os.path.lexists(self.cwd):
+            os.symlink("real", self.cwd)
+        self.other = os.path.join(os.path.realpath(outer), "other")
+        os.makedirs(self.other, exist_ok=True)
         for rel, text in files.items():
             p = os.path.join(self.dir, rel)
             os.makedirs(os.path.dirname(p), exist_ok=True)
@@ -674,7 +699,7 @@ class Scenario:
 
     def run(self, dev):
         """Runs the scenario under deviation dev; returns observation."""
-        env, pre = apply_dev(dev, self.seams, self.b, self.dir)
+        env, pre = apply_dev(dev, self.seams, self.b, self.dir, self)
         for fn in self.outputs().values():
             p = os.path.join(self.dir, fn)
             if os.path.lexists(p):
@@ -687,7 +712,7 @@ class Scenario:
                 with open(os.path.join(self.dir, fn), "wb") as f:
                     f.write(self.stale[ch])
         cmd = pre + self.argv()
-        r = tools.run(cmd, cwd=self.dir, env=env, timeout=300, text=False)
+        r = tools.run(cmd, cwd=self.cwd, env=env, timeout=300, text=False)
         r_ok = r.rc == 0
         outs = {}
         for ch, fn in self.outputs().items():
@@ -890,6 +915,15 @@ def main():
     completed = "reference runs"
     # vacuity guard for the import orderings: the foreign scenario must really produce an imports
     # table in which several entries share their simple name
+    # vacuity guard for the pwd axis: relative arguments must really end up as absolute names
+    # in some output, and the directory must really have two names
+    embeds = [s.name for s in scens if s.ref["outs"].get("oc") and s.dir.encode() in s.ref["outs"]["oc"]]
+    ck.extra["scenarios_embedding_the_working_directory"] = len(embeds)
+    if scens and not ck.only and not embeds:
+        raise HarnessError("no scenario embeds the absolute working directory in its output: pwd axis is vacuous")
+    for s in scens:
+        if os.path.realpath(s.cwd) != s.dir or s.cwd == s.dir:
+            raise HarnessError("working directory of %s is not behind a symbolic link" % s.name)
     ss = byname.get("i-statics-pynative")
     if ss is not None:
         nstat = ss.ref["outs"]["oc"].count(b"Dtool_NewStaticProperty")
